@@ -273,6 +273,56 @@ def files(chk, bib):
                 ok = False
             if not ok:
                 chk.mismatch("parse_file", {"kind": "file", "encoding": "default", "text": text}, "differs", "UTF-8 default", kind="file")
+        # parse_file refuses both stack arguments exactly as parse_string does
+        n += 1
+        p_both = os.path.join(d, "both.bib")
+        with open(p_both, "w", encoding="utf-8") as fh:
+            fh.write(docs["utf-8"])
+        try:
+            bib.parse_file(p_both, parse_stack=[BlockProbe("P1")], append_middleware=[BlockProbe("P2")])
+            chk.mismatch("both_arguments_raise", {"kind": "file", "what": "parse_file(parse_stack=..., append_middleware=...)"}, "returned a library",
+                         "ValueError", kind="file")
+        except ValueError:
+            pass
+        except Exception as ex:  # noqa
+            chk.mismatch("both_arguments_raise", {"kind": "file", "what": "parse_file(parse_stack=..., append_middleware=...)"},
+                         f"{type(ex).__name__}: {ex}", "ValueError", kind="file")
+        # write_string = stack first, THEN the writer (with everything the format asks of it) on what the stack returned:
+        # value_column "auto" is computed from the keys the stack left
+        n += 1
+        M0 = bib.model
+
+        class AddLongKey(bib.middlewares.BlockMiddleware):
+            def __init__(self):
+                super().__init__(allow_inplace_modification=False)
+
+            def transform_entry(self, entry, library):
+                entry.set_field(M0.Field("averyveryverylongfieldkeyaddedbythestack", "{v}"))
+                return entry
+        fa = bib.BibtexFormat()
+        fa.value_column = "auto"
+        lib_a = bib.Library([M0.Entry("article", "k", [M0.Field("a", "{1}"), M0.Field("title", "{t}")])])
+        try:
+            got_a = bib.write_string(lib_a, unparse_stack=[AddLongKey()], bibtex_format=fa)
+            want_a = bib.writer.write(AddLongKey().transform(lib_a), fa)
+            if got_a != want_a:
+                chk.mismatch("unparse_stack_order", {"kind": "file", "what": "write_string(value_column='auto', stack adds a field)"}, got_a[:300], want_a[:300], kind="file")
+        except Exception as ex:  # noqa
+            chk.mismatch("unparse_stack_order", {"kind": "file", "what": "write_string(value_column='auto', stack adds a field)"},
+                         f"{type(ex).__name__}: {ex}", "the writer's text for the transformed library", kind="file")
+        # a path that already holds text receives exactly the (possibly empty) text of the next write
+        n += 1
+        p_twice = os.path.join(d, "twice.bib")
+        try:
+            bib.write_file(p_twice, lib_a)
+            bib.write_file(p_twice, bib.Library())
+            with open(p_twice) as fh:
+                left = fh.read()
+            if left != bib.write_string(bib.Library()):
+                chk.mismatch("write_file", {"kind": "file", "what": "write_file(path, library) then write_file(path, empty library)"}, left[:200],
+                             bib.write_string(bib.Library()), kind="file")
+        except Exception as ex:  # noqa
+            chk.mismatch("write_file", {"kind": "file", "what": "write_file(path, empty library)"}, f"{type(ex).__name__}: {ex}", "an empty file", kind="file")
         # write_file
         lib = bib.parse_string(docs["utf-8"])
         M = bib.model
